@@ -36,6 +36,73 @@ def _trace_work(job):
     return out
 
 
+def sk_sexp(block):
+    out = []
+    for s in block:
+        k = s[0]
+        if k == "m":
+            out.append(f"(m {s[1]})")
+        elif k in ("pass", "break", "continue"):
+            out.append(f"({k})")
+        elif k == "return":
+            out.append("(return %s)" % ("()" if s[1] is None else f"({s[1]})"))
+        else:
+            out.append(f"({k} {s[1]} {sk_sexp(s[2])} {sk_sexp(s[3])})")
+    return "(" + " ".join(out) + ")"
+
+
+def log_to_model(log):
+    """the Python tracer's log in the spelling of KSem.sx_event"""
+    out = []
+    for ev in log:
+        if ev[0] in ("m", "v", "iterable", "iter"):
+            out.append(f"({ev[0]} {ev[1]})")
+        elif ev[0] in ("c", "next"):
+            out.append(f"({ev[0]} {ev[1]} {1 if ev[2] else 0})")
+        elif ev[0] == "r":
+            out.append("(r %s)" % ("()" if ev[1] is None else f"({ev[1][1]})"))
+        else:
+            out.append(str(ev))
+    return "(ok (" + " ".join(out) + "))"
+
+
+def validate_semantics(chk, skeletons, scheds):
+    """KSem.exec vs CPython on the source; KSem.run on the REAL converter output vs CPython on the converted text."""
+    import ast
+    import symtable
+    import sys
+    from harness import sexp
+    conv = sys.modules["oneliner.convert"].convert
+    lines, expect, what = [], [], []
+    for b, pl in skeletons:
+        if pl == "class":
+            continue
+        src = gen_cf.program(b, pl)
+        try:
+            out = conv(ast.parse(src), symtable.symtable(src, "<s>", "exec"), lowercorr.make_configs(False, False))
+            text = diffexec.convert(src, ("oneliner", "list", "if_expr"))
+            esx = sexp.expr(out)
+        except Exception:
+            continue
+        for sched in scheds:
+            bits = "(" + " ".join("1" if x else "0" for x in sched) + ")"
+            lines.append(f"(ksem-src {bits} {pl} {sk_sexp(b)})")
+            expect.append(log_to_model(gen_cf.run_source(src, sched)))
+            what.append(("source semantics (KSem.exec) vs CPython", src, sched))
+            lines.append(f"(ksem-tgt {bits} {esx})")
+            expect.append(log_to_model(gen_cf.run_converted(text, sched)))
+            what.append(("scaffolding semantics (KSem.run) on the real converter output vs CPython", src, sched))
+    answers = common.model_eval(lines)
+    bad = 0
+    for a, e, w in zip(answers, expect, what):
+        chk.note_case(("ksem", w[1], tuple(w[2])))
+        if a != e:
+            bad += 1
+            if bad <= 3:
+                chk.add_broken("correspondence", w[0], json.dumps({"source": w[1], "schedule": w[2], "cpython": e[:600], "model": a[:600]}))
+    chk.coverage.setdefault("correspondence", {})["semantics_vs_cpython"] = {"traces": len(lines), "disagreements": bad}
+
+
 CORPUS = [
     # (skeleton, placement): minimised shapes worth keeping
     ([["for", 1, [["if", 2, [["if", 3, [["continue"]], []], ["m", 4]], []], ["m", 5]], []]], "function"),
@@ -75,6 +142,9 @@ def run(chk, build, replay=None):
     progs = list(dict.fromkeys(progs))
     propkit.lower_correspondence(chk, progs)
     scheds = gen_cf.schedules(rng, 6)
+    rng2 = random.Random(chk.seed + 55)
+    sks = list(CORPUS) + [gen_cf.random_skeleton(rng2, 3) for _ in range(150 if chk.tier == "quick" else 2000)]
+    validate_semantics(chk, sks, scheds[:4])
     triples = [("oneliner", "list", "if_expr"), ("oneliner", "chain_call", "short_circuit"),
                ("ast.unparse", "list", "short_circuit"), ("ast.unparse", "chain_call", "if_expr")]
     if chk.tier == "thorough":
